@@ -201,11 +201,7 @@ func runC07(args []string) {
 		}
 		vg := codec.NewVG(t.Ctx, r.Seed)
 		rng := rand.New(rand.NewSource(r.Seed*31 + int64(len(t.Label))*131))
-		evs := encodeValues(ch, t, vg.Records(t.Def, nv*3))
-		if len(evs) > nv {
-			// keep the first (all present) and the longest ones
-			evs = evs[:nv]
-		}
+		evs := pickRich(t, encodeValues(ch, t, vg.Records(t.Def, 12)), nv)
 		var cs []corruption
 		for i, ev := range evs {
 			if len(ev.B) == 0 {
